@@ -32,7 +32,7 @@ import sys
 assert sys.version_info >= (3, 0)  # Bomb out if not running Python3
 
 
-import operator, time, traceback, uuid, fnmatch, opentracing
+import operator, re, time, traceback, uuid, fnmatch, opentracing
 
 from datetime import datetime, timezone, timedelta
 from aioprometheus import Counter, Histogram
@@ -75,6 +75,11 @@ MAX_EXECUTION_HISTORY_LENGTH = 25000
 MAX_DATA_LENGTH = 262144  # Max length of the input or output JSON string (256*1024).
 MAX_STATE_MACHINE_LENGTH = 1048576  # Max length of the State Machine definition.
 
+RFC3339_DATETIME = re.compile(
+    r"\d{4}-\d{2}-\d{2}T\d{2}:\d{2}:\d{2}(\.\d+)?"
+    r"(Z|[+-]([01]\d|2[0-3]):[0-5]\d)"
+)
+
 def parse_rfc3339_datetime(rfc3339):
     """
     Parse an RFC3339 (https://www.ietf.org/rfc/rfc3339.txt) format string into
@@ -83,6 +88,9 @@ def parse_rfc3339_datetime(rfc3339):
     We primarily need this in the Wait state so we can compute timeouts etc.
     """
     rfc3339 = rfc3339.strip()  # Remove any leading/trailing whitespace
+    if not RFC3339_DATETIME.fullmatch(rfc3339):
+        # e.g. a malformed UTC offset such as x01:00, +0100, +01:60 or +01-00
+        raise ValueError("{} is not an RFC3339 timestamp".format(rfc3339))
     if rfc3339[-1] == "Z":
         date = rfc3339[:-1]
         offset = "+00:00"
